@@ -413,7 +413,7 @@ package moss
 
 //@ func (ss *segmentStack) get(key []byte, segStart int, base *segmentStack, readOptions ReadOptions) ([]byte, error)
 //@   dead op, val, err := b.Get(key)
-//@   props C01 C08 C10 C13 C02 C03 C04 C11
+//@   props C01 C08 C10 C13 C02 C03 C04 C11 C20
 //@   requires stackOK(ss) && -1 <= segStart && segStart < len(ss.a) && (base != nil ==> stackOK(base))
 //@   ensures @read r1 == nil ==> r0 == readFrom(ss, segStart, key, base, readOptions.SkipLowerLevel)
 //@   loop 1: invariant -1 <= seg && seg <= segStart
@@ -676,7 +676,7 @@ package moss
 //@ func (s *Store) compact(footer *Footer, partialCompactStart int, higher Snapshot, persistOptions StorePersistOptions) error
 //@   props C18 C06 C07 C15 C04 C05 C11 C12 C08
 //@   attr obligations call-requires ensures
-//@   attr only-labels unpublished notReadOnly readOnlyFlag liveKept cleanup wholeFooterWritten fileCountReleased doomedKeptOnSuccess syncForced
+//@   attr only-labels unpublished notReadOnly readOnlyFlag liveKept cleanup wholeFooterWritten fileCountReleased doomedKeptOnSuccess syncForced dropsOnlyWithoutBase
 //@   requires @notReadOnly !readOnlyMode()
 //@   modifies *
 //@   ensures @unpublished result != nil ==> s.footer == old(s.footer)
@@ -949,8 +949,9 @@ package moss
 //@ func (s *Store) writeSegments(newSS, base *segmentStack, frefCompact *FileRef, fileCompact File, includeDeletes bool, syncAfterBytes int) (compactFooter *Footer, err error)
 //@   props C07 C11 C04 C05 C06 C03
 //@   attr obligations ensures call-requires
-//@   attr only-labels incar oneSegment appendOnly freshFooter deletes doomedKept reported tailCopy
+//@   attr only-labels incar oneSegment appendOnly freshFooter deletes doomedKept reported tailCopy dropsOnlyWithoutBase
 //@   requires newSS != nil && treeOK(newSS) && StorePageSize > 0 && StorePageSize <= 1073741824
+//@   requires @dropsOnlyWithoutBase !includeDeletes ==> base == nil
 //@   modifies s.totCompactionBeforeBytes, keptTombstones, ioFailed
 //@   ensures @doomedKept doomed == old(doomed)
 //@   ensures @reported ioFailed && !old(ioFailed) ==> err != nil
@@ -1576,7 +1577,7 @@ package moss
 //@       ptrOf(r0, "*collection").childCollections == nil && ptrOf(r0, "*collection").incarNum == 0 && ptrOf(r0, "*collection").highestIncarNum == 0
 
 //@ func restoreCollection(co *CollectionOptions, storeFooter *Footer) (rv *collection, err error)
-//@   props C04 C11
+//@   props C04 C11 C20
 //@   attr obligations ensures inv-entry inv-preserve
 //@   requires storeFooter != nil && co != nil
 //@   modifies heap(Footer.incarNum)
@@ -1605,7 +1606,7 @@ package moss
 // dst.a becomes dst.a ++ src.a (child stacks are appended recursively; only
 // the top level is stated).
 //@ func (m *collection) appendChildStacks(dst, src *segmentStack) *segmentStack
-//@   props C01 C02 C03 C13 C11
+//@   props C01 C02 C03 C13 C11 C04
 //@   attr obligations ensures inv-entry inv-preserve
 //@   attr only-labels same nilsrc appended filtered
 //@   requires m != nil && dst != nil && (src != nil ==> before(src, dst))
